@@ -21,7 +21,8 @@ RULE = (
     "carriers {include, render, macro call, if, capture} with literal lengths 0..12, innermost body emits one marker; limit N chosen just "
     "below / at / above every prefix product (and random 1..200). Expected: some reached prefix product > N => LoopIterationLimitError, "
     "else the render completes with exactly prod(lengths) markers. Depth <= 2 over all kinds and lengths {0,1,2,3,5,12} is exhaustive "
-    "(thorough: depth 3 too). Non-trivial = nest with >= 2 repeating constructs whose product differs from each single length."
+    "(thorough: depth 3 too). Sibling cases render another complete nest (often of length zero) just before some level of the main nest: the "
+    "outcome of the main nest must not change. Non-trivial = nest with >= 2 repeating constructs whose product differs from each single length."
 )
 REQUIRED = [
     ("liquid/context.py", "RenderContext.raise_for_loop_limit"),
@@ -32,7 +33,7 @@ REQUIRED = [
     ("liquid/builtin/tags/render_tag.py", "RenderNode.render_to_output"),
     ("liquid/extra/tags/macro_tag.py", "CallNode.render_to_output"),
 ]
-MIN_COUNTERS = {"limit_checks_observed": 500, "must_raise_cases": 50, "must_complete_cases": 50}
+MIN_COUNTERS = {"limit_checks_observed": 500, "must_raise_cases": 50, "must_complete_cases": 50, "sibling_cases": 200, "sibling_zero_length_cases": 100}
 
 REPEATING = ["for", "tablerow", "include_for", "render_for"]
 CARRIERS = ["include", "render", "call", "if", "capture"]
@@ -55,41 +56,54 @@ class MonEnv(Environment):
     template_class = MonTemplate
 
 
-def build(levels: list[list[Any]]) -> tuple[str, dict[str, str]]:
-    """levels: [[kind, length], ...] outermost first. Returns (main source, partials)."""
+def build(levels: list[list[Any]], sibling: dict[str, Any] | None = None) -> tuple[str, dict[str, str]]:
+    """levels: [[kind, length], ...] outermost first. Returns (main source, partials).
+
+    sibling = {"at": j, "levels": [...]}: another (complete, within-limit) nest rendered just before level j's construct, inside the
+    bodies of levels[:j] - the state one repeating construct leaves behind must not leak into the next one.
+    """
     partials: dict[str, str] = {}
     macros: list[str] = []
+    return _build(levels, "", "x", partials, macros, sibling)
 
+
+def _build(levels, pfx: str, marker: str, partials: dict[str, str], macros: list[str], sibling=None) -> tuple[str, dict[str, str]]:
     def body(i: int) -> str:
+        if sibling is not None and sibling["at"] == i:
+            pre, _ = _build(sibling["levels"], pfx + "s", "y", partials, [], None)
+            return pre + body_(i)
+        return body_(i)
+
+    def body_(i: int) -> str:
         if i == len(levels):
-            return "x"
+            return marker
         kind, n = levels[i]
         inner = body(i + 1)
-        v = f"v{i}"
+        v = f"{pfx}v{i}"
         rng_ = f"(1..{n})" if n > 0 else "(1..0)"
         if kind == "for":
             return f"{{% for {v} in {rng_} %}}{inner}{{% endfor %}}"
         if kind == "tablerow":
             return f"{{% tablerow {v} in {rng_} %}}{inner}{{% endtablerow %}}"
         if kind == "include_for":
-            partials[f"p{i}"] = inner
-            return f"{{% assign a{i} = {rng_} | concat: nothing %}}{{% include 'p{i}' for a{i} %}}"
+            partials[f"{pfx}p{i}"] = inner
+            return f"{{% assign {pfx}a{i} = {rng_} | concat: nothing %}}{{% include '{pfx}p{i}' for {pfx}a{i} %}}"
         if kind == "render_for":
-            partials[f"p{i}"] = inner
-            return f"{{% assign a{i} = {rng_} | concat: nothing %}}{{% render 'p{i}' for a{i} %}}"
+            partials[f"{pfx}p{i}"] = inner
+            return f"{{% assign {pfx}a{i} = {rng_} | concat: nothing %}}{{% render '{pfx}p{i}' for {pfx}a{i} %}}"
         if kind == "include":
-            partials[f"p{i}"] = inner
-            return f"{{% include 'p{i}' %}}"
+            partials[f"{pfx}p{i}"] = inner
+            return f"{{% include '{pfx}p{i}' %}}"
         if kind == "render":
-            partials[f"p{i}"] = inner
-            return f"{{% render 'p{i}' %}}"
+            partials[f"{pfx}p{i}"] = inner
+            return f"{{% render '{pfx}p{i}' %}}"
         if kind == "call":
-            macros.append(f"{{% macro 'm{i}' %}}{inner}{{% endmacro %}}")
-            return f"{{% call 'm{i}' %}}"
+            macros.append(f"{{% macro '{pfx}m{i}' %}}{inner}{{% endmacro %}}")
+            return f"{{% call '{pfx}m{i}' %}}"
         if kind == "if":
             return f"{{% if true %}}{inner}{{% endif %}}"
         if kind == "capture":
-            return f"{{% capture c{i} %}}{inner}{{% endcapture %}}{{{{ c{i} }}}}"
+            return f"{{% capture {pfx}c{i} %}}{inner}{{% endcapture %}}{{{{ {pfx}c{i} }}}}"
         raise ValueError(kind)
 
     main = body(0)
@@ -115,8 +129,8 @@ def expectation(levels: list[list[Any]], limit: int):
     return must_raise, total
 
 
-def run(levels, limit: int, use_async: bool = False):
-    src, partials = build(levels)
+def run(levels, limit: int, use_async: bool = False, sibling=None):
+    src, partials = build(levels, sibling)
     env = drv.make_env({"extra": True, "limits": {"loop_iteration_limit": limit}}, loader=DictLoader(partials), base=MonEnv)
     HOOK["n"] = 0
     o = drv.parse_and_render(env, src, {"nothing": []}, use_async=use_async)
@@ -143,7 +157,12 @@ def judge(ctx: core.Ctx, case: dict[str, Any]) -> None:
     levels = case["levels"]
     limit = case["limit"]
     must_raise, total = expectation(levels, limit)
-    src, partials, o, nchecks = run(levels, limit, case.get("async", False))
+    sibling = case.get("sibling")
+    src, partials, o, nchecks = run(levels, limit, case.get("async", False), sibling)
+    if sibling:
+        ctx.count("sibling_cases")
+        if any(n == 0 for k, n in sibling["levels"] if k in REPEATING):
+            ctx.count("sibling_zero_length_cases")
     ctx.count("limit_checks_observed", nchecks)
     ctx.count("must_raise_cases" if must_raise else "must_complete_cases")
     kinds = [k for k, _ in levels]
@@ -159,6 +178,13 @@ def judge(ctx: core.Ctx, case: dict[str, Any]) -> None:
             bad = (f"raised-{o.err_class}-under-limit", f"limit {limit}: nest {levels} (all prefix products <= limit) raised {o.err_class}: {str(o.exc)[:80]}")
         elif o.value.count("x") != total:
             bad = ("wrong-marker-count", f"nest {levels} produced {o.value.count('x')} markers, expected {total}")
+    if bad is not None and sibling and failing(levels, limit) is None:
+        # the nest alone behaves; the preceding sibling nest changes the outcome: state leaks from one construct into the next
+        sk = "->".join(k for k, _ in sibling["levels"])
+        zero = "zero-length-" if any(n == 0 for k, n in sibling["levels"] if k in REPEATING) else ""
+        ctx.evaluations += 1
+        ctx.violation(f"{bad[0]}:after-{zero}sibling:{sk}", bad[1] + f" when preceded by the sibling nest {sibling}", {"source": src, "partials": partials})
+        return
     if bad is None:
         rep = sum(1 for k in kinds if k in REPEATING)
         ctx.observe("nest_shapes", "->".join(kinds))
@@ -250,3 +276,25 @@ def cases(ctx: core.Ctx):
             continue
         for lim in limits_for(levels, rng):
             yield {"levels": levels, "limit": lim, "async": rng.random() < 0.1}
+    # sibling nests: a complete nest (often of length zero) rendered just before some level of the main nest
+    for _ in range(ctx.budget(2500, 400_000)):
+        d = rng.choice([1, 2, 2, 3])
+        levels = []
+        for _i in range(d):
+            k = rng.choice(REPEATING * 2 + CARRIERS)
+            levels.append([k, rng.choice([1, 2, 3, 5, 12]) if k in REPEATING else 1])
+        if not valid(levels) or not any(k in REPEATING for k, _ in levels):
+            continue
+        at = rng.randrange(d + 1)
+        sl = []
+        for _i in range(rng.choice([1, 1, 2])):
+            k = rng.choice(REPEATING * 3 + ["if", "capture"])
+            sl.append([k, rng.choice([0, 0, 1, 2, 3]) if k in REPEATING else 1])
+        if not valid(levels[:at] + sl) or not any(k in REPEATING for k, _ in sl):
+            continue
+        for lim in limits_for(levels, rng):
+            # the sibling itself must stay within the limit where it stands, else it would (rightly) raise first
+            if expectation(levels[:at] + sl, lim)[0]:
+                continue
+            # the main nest's marker count is unaffected by the sibling ('y' markers)
+            yield {"levels": levels, "limit": lim, "sibling": {"at": at, "levels": sl}, "async": rng.random() < 0.1}
